@@ -847,10 +847,46 @@ def model_case(case):
             apply_set(m1, name)
         if hist == 'eval-setall':
             m1.model()
-    roundtrip(r, m1, 'm', d)
+    m2 = roundtrip(r, m1, 'm', d)
+    if m2 is not None:
+        refused_then_written(r, m1, d)
     if any(case.get(k, v) != v for k, v in DEFAULT_CFG.items()) or hist != 'fresh':
         r.nontrivial = True
     return r
+
+
+def refused_then_written(r, m, d):
+    """One open output: a write while the model is invalid (a mixing ratio above one) is refused; the parameter is put
+    back and the same output is written again.  The file then holds the valid model exactly as a fresh file does."""
+    from taurex.output.hdf5 import HDF5Output
+    name = next((n for n in ('H2O', 'CH4') if n in m.fittingParameters), None)
+    if name is None:
+        r.count('c:refused-write-not-applicable')
+        return
+    back = m.fittingParameters[name][2]()
+    want_s = np.array(m.model()[1], dtype=float)
+    want_d = describe(m)
+    path = os.path.join(d, 'refused.h5')
+    try:
+        with HDF5Output(path) as o:
+            m.fittingParameters[name][3](1.5)
+            try:
+                m.write(o)
+                refused = False
+            except Exception:
+                refused = True
+            m.fittingParameters[name][3](back)
+            if not refused:
+                r.count('c:invalid-model-written')       # the writer does not validate: nothing to test here
+                return
+            m.write(o)
+        m3 = load_model(path)
+    except Exception as e:
+        r.check(False, 'c:write', 'c/write-after-refused-write/%s' % type(e).__name__, exc=repr(e)[:300])
+        return
+    dd = desc_diff(want_d, describe(m3))
+    r.check(not dd, 'c:values', 'c/value-after-refused-write', diff=dd[:5])
+    r.eq(np.array(m3.model()[1], dtype=float), want_s, 'c:spectrum', 'c/spectrum-after-refused-write', rtol=1e-12)
 
 
 # ------------------------------------------------------------------------------------------------
